@@ -208,8 +208,6 @@ func CheckAlloc(now uint64) {
 		}
 	}
 }
-func ReadOnlyBegin(label string, roots ...interface{}) {}
-func ReadOnlyEnd()                                   {}
 func PermuteMaps(on bool)                            {}
 
 // PermuteOneMap: exactly one of the map iterations that follow (inside go-ucfg)
